@@ -13,6 +13,6 @@ echo "== baseline tests with the change"
 (cd $REPO && /venv/bin/python -m pytest -q -p no:cacheprovider --timeout=900 --continue-on-collection-errors 2>&1 | tail -1)
 for id in "$@"; do
   echo "== check $id"
-  ./check "$id" --tier quick 2>/dev/null | grep -E "VIOLATION|KNOWN-FINDING|^\[" | cut -c1-400
+  ./check "$id" --tier quick 2>/dev/null | grep -E "VIOLATION|KNOWN-FINDING|INFRA|^\[" | cut -c1-400
   echo "exit=$?"
 done
